@@ -1056,7 +1056,8 @@ _single = {"cases": cases, "impl": impl, "oracle": oracle, "neighbours": neighbo
 
 def cases(rng, tier):  # noqa: F811
     yield from _single["cases"](rng, tier)
-    yield from pair_cases(rng, tier)
+    if PL.enabled():
+        yield from pair_cases(rng, tier)
 
 
 def impl(case):  # noqa: F811
